@@ -115,6 +115,13 @@ func genC12(seed uint64, tier string) C12Cfg {
 	if rd := prng.Derive(seed, "init-delay"); rd.Bool(0.35) {
 		c.Deploy.SignSP.InitDelayMs = rd.Range(1, 40)
 	}
+	// a third of the runs: the backends do not return promptly once their context has ended (they linger for up to
+	// a few simulated seconds), so that the call has returned to its caller - and the next phase has begun - while
+	// the abandoned session's backend is still busy
+	if rl := prng.Derive(seed, "linger"); rl.Bool(0.33) {
+		c.Deploy.SP.LingerMs = rl.Range(50, 4000)
+		c.Deploy.SignSP.LingerMs = rl.Range(50, 4000)
+	}
 	return c
 }
 
